@@ -1949,7 +1949,12 @@ fn gen_scenario(rng: &mut Rng, thorough: bool) -> Vec<String> {
 
 /// smallest fee whose committer share (`fee − floor(fee·numer/denom)`) is `x` (None when the ratio is 1)
 fn fee_with_committer_share(x: u64, numer: u64, denom: u64) -> Option<u64> {
-    (x..=x.saturating_mul(denom) + denom).find(|f| f - f * numer / denom == x)
+    if numer >= denom {
+        return None;
+    }
+    // f − floor(f·r) = x has its solutions next to x / (1 − r)
+    let guess = (x as u128 * denom as u128 / (denom - numer) as u128) as u64;
+    (guess.saturating_sub(denom + 1)..=guess + denom + 1).find(|f| f - (*f as u128 * numer as u128 / denom as u128) as u64 == x)
 }
 
 /// A LINEAR scenario around RewardVerifier's "insufficient reward to create a cell" boundary: a
@@ -2019,11 +2024,12 @@ fn gen_scenario_linear(rng: &mut Rng, _thorough: bool) -> Vec<String> {
                 continue;
             }
             let n_out = rng.range(1, max_out);
-            let want = match rng.below(6) {
+            let want = match rng.below(7) {
                 0 => gap.saturating_sub(1),
                 1 | 2 => gap,
                 3 => gap + 1,
                 4 => rng.below(2 * gap.min(1000) + 3),
+                5 if gap > 1_000_000 => rng.below(5000),
                 _ => 0,
             };
             // aimed at the committer share, or at the proposer share, or the fee itself
